@@ -78,6 +78,14 @@ Json gen(sim::Rng& rng, int tier)
     p["faults"] = f;
     // shutdown of the endpoint in the middle of the load (every request then carries a time-out)
     p["shutdown_at_us"] = rng.chance(0.2) ? static_cast<int>(rng.below(6000)) : -1;
+    // two endpoints ("hosts") behind the one client in part of the runs; when one of them is shut down in the middle of the
+    // load the other one goes on, and every request addressed to it must still be fulfilled
+    if (rng.chance(0.3)) {
+        p["hosts"] = 2;
+        for (auto& iss : p["issuers"].a)
+            for (auto& q : iss.a) q["host"] = static_cast<int>(rng.below(2));
+        p["shutdown_both"] = rng.chance(0.3);
+    }
     gen_sched(rng, p, 8000, true);
     return p;
 }
@@ -90,6 +98,8 @@ struct ReqState {
     i64 issued_at = -1, settled_at = -1;
     int fulfilled = 0, rejected = 0, status = 0;
     std::string got, error;
+    int host = 0;
+    bool judged_live = true; // its host stays up for the whole run
 };
 
 void run(const Json& plan)
@@ -103,7 +113,9 @@ void run(const Json& plan)
         return { "", "" };
     });
 
-    httpw::World w;
+    httpw::World w, w2;
+    const bool two_hosts = plan.num("hosts", 1) >= 2;
+    const bool shutdown_both = !two_hosts || plan.flag("shutdown_both");
     const Json& ji = plan.get("issuers");
     std::deque<ReqState> reqs;
     std::vector<std::vector<ReqState*>> per_issuer(ji.size());
@@ -126,7 +138,7 @@ void run(const Json& plan)
             if (q.flag("query")) rs.query_val = "v" + t;
             if (rs.kind == "file") {
                 size = std::max<size_t>(1, size);
-                w.make_file(t, size);
+                (q.num("host", 0) >= 1 && two_hosts ? w2 : w).make_file(t, size);
                 rs.expect_resource = "/file/" + t;
                 rs.expect_body = actors::pattern(tag, size);
             } else if (rs.kind == "stream") {
@@ -143,8 +155,10 @@ void run(const Json& plan)
                 rs.expect_resource = "/echo/" + t;
                 rs.expect_body = httpw::SimHandler::echo_body(rs.method, rs.expect_resource, rs.query_val.empty() ? "" : "?k=" + rs.query_val, rs.body);
             }
-            rs.url = "http://127.0.0.1:" + std::to_string(port) + rs.expect_resource;
-            rs.timeout_ms = shutdown_at >= 0 ? 1500 : 0;
+            rs.host = two_hosts && q.num("host", 0) >= 1 ? 1 : 0;
+            rs.url = "http://127.0.0.1:" + std::to_string(port + rs.host) + rs.expect_resource;
+            rs.judged_live = shutdown_at < 0 || (rs.host == 1 && !shutdown_both);
+            rs.timeout_ms = rs.judged_live ? 0 : 1500;
             by_tag[tag] = &rs;
             per_issuer[i].push_back(&rs);
         }
@@ -165,6 +179,13 @@ void run(const Json& plan)
     o.max_req = 16384;
     o.app_delay_ns = plan.num("app_delay_us", 0) * 1000;
     w.start(o);
+    if (two_hosts) {
+        httpw::Opts o2 = o;
+        o2.port = port + 1;
+        o2.workers = 1 + (o.workers % 2);
+        w2.start(o2);
+        r.probe("two-hosts");
+    }
 
     const int max_conn = std::max(1, std::min(8, static_cast<int>(plan.num("max_conn", 1))));
     auto client = std::make_unique<Http::Experimental::Client>();
@@ -245,6 +266,8 @@ void run(const Json& plan)
         phase = "shutdown";
         int before = sim::live_thread_count();
         w.stop();
+        if (two_hosts && shutdown_both) w2.stop();
+        if (two_hosts && !shutdown_both) r.probe("one-host-shut-down-the-other-goes-on");
         phase = "after";
         // the issuers, the client's reactor threads and this driver remain
         r.stats["threads_before_shutdown"] = before;
@@ -256,14 +279,18 @@ void run(const Json& plan)
         return true;
     };
     // liveness bound: generous (a 64-byte pipe moves 200 KB in a few simulated seconds)
-    scen::wait_for(all_settled, shutdown_at >= 0 ? 6LL * 1000000000LL : 120LL * 1000000000LL, "driver.wait-settled");
+    scen::wait_for(all_settled, shutdown_at >= 0 && shutdown_both ? 6LL * 1000000000LL : 120LL * 1000000000LL, "driver.wait-settled");
     sim::sleep_ns(20 * 1000000LL);
 
     {
         sim::IgnoreScope oracle_scope;
         // what the handler saw
         std::map<u64, int> seen;
-        for (auto& rr : w.requests) {
+        std::vector<std::pair<const httpw::ReqRec*, int>> all_seen;
+        for (auto& rr : w.requests) all_seen.emplace_back(&rr, 0);
+        for (auto& rr : w2.requests) all_seen.emplace_back(&rr, 1);
+        for (auto& pr : all_seen) {
+            const httpw::ReqRec& rr = *pr.first;
             u64 tag = 0;
             size_t sl = rr.resource.rfind('/');
             if (sl != std::string::npos) tag = strtoull(rr.resource.c_str() + sl + 1, nullptr, 10);
@@ -274,6 +301,7 @@ void run(const Json& plan)
             }
             ReqState& rs = *it->second;
             std::string who = "request tag " + std::to_string(rs.tag) + " (" + rs.method + " " + rs.kind + ")";
+            if (pr.second != rs.host) r.violation("C15.wire:request-sent-to-another-host", who + " was addressed to host " + std::to_string(rs.host) + " and reached host " + std::to_string(pr.second));
             if (++seen[tag] > 1) r.violation("C15.wire:request-delivered-twice", who + " reached the handler " + std::to_string(seen[tag]) + " times");
             std::string q = rs.query_val.empty() ? "" : "?k=" + rs.query_val;
             if (rr.method != rs.method || rr.resource != rs.expect_resource || rr.query != q || rr.body != rs.body)
@@ -295,7 +323,7 @@ void run(const Json& plan)
                 }
                 if (!seen.count(rs.tag)) r.violation("C15.own-response:fulfilled-without-reaching-the-server", who + " was fulfilled although the handler never saw it");
             }
-            if (shutdown_at < 0) {
+            if (rs.judged_live) {
                 // nothing disturbs the exchange: the server answers every request it sees, the connection stays up
                 if (!rs.fulfilled && seen.count(rs.tag))
                     r.violation("C15.liveness:answered-request-not-fulfilled:" + rs.kind, who + " reached the handler, which answered it, but its promise was " + (rs.rejected ? "rejected (" + rs.error + ")" : "never settled"));
@@ -310,14 +338,19 @@ void run(const Json& plan)
             }
         }
         // send promises of the handler: at most once; fulfilled when the client got the response
-        for (auto& sr : w.sends)
+        std::vector<const httpw::SendRec*> all_sends;
+        for (auto& sr : w.sends) all_sends.push_back(&sr);
+        for (auto& sr : w2.sends) all_sends.push_back(&sr);
+        for (auto* srp : all_sends) {
+            const httpw::SendRec& sr = *srp;
             if (sr.fulfilled + sr.rejected > 1) r.violation("C06.promise:settled-twice", "the send promise of " + sr.what + " was settled " + std::to_string(sr.fulfilled + sr.rejected) + " times");
+        }
         // the client's sockets open at one time (accepted sockets of the server are the other fd-owning sockets: they are
         // created by accept, the client's by connect; tell them apart by who created the connection)
-        {
+        for (int hport = port; hport <= port + (two_hosts ? 1 : 0); ++hport) {
             std::vector<std::pair<i64, int>> ev;
             for (auto& st : simk::sock_stats()) {
-                if (st.accepted) continue;
+                if (st.accepted || st.port != hport) continue;
                 ev.emplace_back(st.opened_at, +1);
                 if (st.closed_at >= 0) ev.emplace_back(st.closed_at, -1);
             }
@@ -327,8 +360,8 @@ void run(const Json& plan)
                 open_now += e.second;
                 max_open = std::max(max_open, open_now);
             }
-            r.stats["max_client_sockets"] = max_open;
-            if (max_open > max_conn) r.violation("C15.connections:more-than-configured", "the client had " + std::to_string(max_open) + " sockets to the host open at once with a limit of " + std::to_string(max_conn));
+            r.stats[hport == port ? "max_client_sockets" : "max_client_sockets_host2"] = max_open;
+            if (max_open > max_conn) r.violation("C15.connections:more-than-configured", "the client had " + std::to_string(max_open) + " sockets to the host at port " + std::to_string(hport) + " open at once with a limit of " + std::to_string(max_conn));
             if (max_open >= max_conn && max_conn > 1) r.probe("connection-limit-reached");
         }
         u64 eagain = 0, shortw = 0;
@@ -346,9 +379,10 @@ void run(const Json& plan)
     sim::quiesce(2LL * 1000000000LL);
     client->shutdown();
     client.reset();
-    if (shutdown_at < 0) {
+    if (shutdown_at < 0 || (two_hosts && !shutdown_both)) {
         phase = "shutdown";
-        w.stop();
+        if (shutdown_at < 0) w.stop();
+        if (two_hosts) w2.stop();
         phase = "after";
     }
     int after = sim::live_thread_count();
